@@ -9,6 +9,9 @@ sys.path.insert(0, os.path.join(os.path.dirname(os.path.abspath(__file__)), '..'
 from sa.selftest import make_copy
 
 PIDS = ['C%02d' % i for i in range(1, 20)]
+NROUND = os.environ.get('NROUND', '1')
+WT = '/tmp/nt-%s' if NROUND == '1' else '/tmp/n' + NROUND + '-%s'
+TAG = 'n' if NROUND == '1' else 'n' + NROUND
 
 
 def sh(cmd, cwd=None, env=None, timeout=1800):
@@ -37,11 +40,11 @@ def run_checks(patch, own):
 
 
 def one(pid, k, head):
-    wt = '/tmp/nt-%s' % pid
+    wt = WT % pid
     src = '%s/OUT/n%d.diff' % (wt, k)
     if not os.path.exists(src) or os.path.getsize(src) == 0:
         return None
-    sid = '%s-n%d' % (pid, k)
+    sid = ('%s-%s%d' if NROUND == '1' else '%s-%s-%d') % (pid, TAG, k)
     note = {}
     try:
         note = json.load(open('%s/OUT/n%d.json' % (wt, k)))
@@ -57,7 +60,7 @@ def one(pid, k, head):
     mp = sd + '/meta.json'
     old = json.load(open(mp)) if os.path.exists(mp) else {}
     meta = {'id': sid, 'property': pid, 'kind': note.get('kind'),
-            'origin': 'independent sub-agent given only the property text and a scratch worktree (false-alarm round)',
+            'origin': 'independent sub-agent given only the property text and a scratch worktree (false-alarm round %s)' % NROUND,
             'summary': note.get('summary'), 'why_harmless': note.get('why_harmless'), 'files': note.get('files'),
             'confirmed_by': old.get('confirmed_by'),
             'verdict': old.get('verdict', 'harmless'),
@@ -69,7 +72,7 @@ def one(pid, k, head):
 
 def confirm(pid, head):
     """sequential per worktree: suite + probe digests"""
-    wt = '/tmp/nt-%s' % pid
+    wt = WT % pid
     env = dict(os.environ, PYTHONPATH=wt)
     sh('git checkout -q -- . ; git reset -q --hard ; git checkout -q --detach %s' % head, cwd=wt)
     out = {}
@@ -115,7 +118,7 @@ def main():
             if r is None:
                 continue
             sid, alarms = r
-            pid, k = sid.split('-n')
+            pid, k = sid[:3], sid.rsplit('-', 1)[1].lstrip('n') if NROUND != '1' else sid.split('-n')[1]
             mp = '/verif/neutral/%s/meta.json' % sid
             meta = json.load(open(mp))
             c = conf.get(pid, {}).get(int(k))
@@ -130,10 +133,10 @@ def main():
                 for l in v['lines'][:2]:
                     print('     ', a, l[:230])
     for pid in pids:
-        p = '/tmp/nt-%s/OUT/probe.py' % pid
+        p = (WT % pid) + '/OUT/probe.py'
         if os.path.exists(p):
             os.makedirs('/verif/neutral/probes', exist_ok=True)
-            shutil.copy(p, '/verif/neutral/probes/%s_probe.py' % pid)
+            shutil.copy(p, '/verif/neutral/probes/%s_probe%s.py' % (pid, '' if NROUND == '1' else NROUND))
 
 
 if __name__ == '__main__':
